@@ -108,16 +108,10 @@ fn main() -> Result<(), anyhow::Error> {
         };
         for line in reader.lines() {
             let line = line?;
-            let line = line.trim();
+            // Remove comments - also those following a value without
+            // any whitespace in between
+            let line = line.split('#').next().unwrap_or("").trim();
             let mut args: Vec<&str> = line.split_whitespace().collect();
-
-            // Remove comments
-            for (n, arg) in args.iter().enumerate() {
-                if arg.starts_with('#') {
-                    args.truncate(n);
-                    break;
-                }
-            }
             let n = args.len();
 
             // Empty line
